@@ -260,10 +260,19 @@ func (d *Data) ingestMappings(ctx *datastore.VersionedCtx, mappings *proto.Mappi
 		return err
 	}
 	vid := ctx.VersionID()
+	var maxMapped uint64
 	for _, mapOp := range mappings.Mappings {
 		for _, label := range mapOp.Original {
 			lmap.setMapping(vid, label, mapOp.Mapped)
 		}
+		if mapOp.Mapped > maxMapped {
+			maxMapped = mapOp.Mapped
+		}
+	}
+	// The mapped (body) labels are chosen by the client and are present in the label volume from
+	// now on, so labels handed out later (cleaves, splits, nextlabel) have to be above them.
+	if _, err := d.updateMaxLabel(vid, maxMapped); err != nil {
+		return err
 	}
 	return labels.LogMappings(d, ctx.VersionID(), mappings)
 }
